@@ -478,6 +478,7 @@ def run(rep, tier, seed, only=None):
                   "deep": "inverter chain, AND/XOR ladder and ring of depth 1500 (quick) / 1100, 1500, 5000 (thorough)",
                   "histories": "random public mutator histories; replace_subcircuit with an outside reader on several pins"}
     rep.outside = ["no value dimension: the program dimension is enumerated, not solved", "BFS level order (not stated by the property)"]
+    rep.bounds['hooks / rejected calls'] = 'enter hooks that read the states of all neighbours; traversals after a rejected emplace_gate; empty start sets'
     rep.rule = "case = (netlist, mode, start list, direction, unvisited order) or (netlist for the cycle check)"
     rep.explanation = "bounded exploration against independent oracles"
     rnd = random.Random(seed)
